@@ -386,6 +386,26 @@ def oniom_runs(chk):
         dict(name="H4 model HF/3-21g : CCSD/sto-3g, system HF/3-21g", geometry=H4B, options=True, expect="none",
              frags=[F(low="HF", olow=B321), F([0, 1], "HF", "CCSD", olow=B321, ohigh=NF)]),
     ]
+    B631 = {"basis": "6-31g"}
+    runs += [
+        # ONE dict object handed to several levels / fragments / successive ONIOM objects (the caller's `options_both`)
+        dict(name="H4 model=whole, HF : FCI, ONE 6-31g dict object for every level, two successive ONIOM objects", geometry=H4, options=True,
+             expect="high", shared={"both": B631}, successive=True,
+             frags=[F(low="HF", olow="@both"), F(4, "HF", "FCI", olow="@both", ohigh="@both")]),
+        dict(name="LiH-H2 high=low CCSD, ONE frozen-core dict object for low and high of the model", geometry=LIH_H2, options=True,
+             expect="low", shared={"fc": FC}, frags=[F(), F([0, 1], "CCSD", "CCSD", olow="@fc", ohigh="@fc")]),
+        dict(name="LiH two fragments sharing ONE frozen-core dict object (system CCSD, model=whole CCSD : FCI)", geometry=LIH, options=True,
+             expect="high", shared={"fc": FC}, frags=[F(low="CCSD", olow="@fc"), F([1, 0], "CCSD", "FCI", olow="@fc", ohigh="@fc")]),
+    ]
+    if not chk.quick:
+        runs += [
+            dict(name="H4 3-21g dict shared by three fragments, successive objects", geometry=H4B, options=True, expect="none",
+                 shared={"b": B321}, successive=True,
+                 frags=[F(low="HF", olow="@b"), F([0, 1], "HF", "CCSD", olow="@b", ohigh="@b"), F([3, 2], "HF", "FCI", olow="@b", ohigh="@b")]),
+            dict(name="BeH2 link, shared frozen-core dict, successive objects", geometry=BEH2, options=True, expect="none",
+                 shared={"fc": FC}, successive=True,
+                 frags=[F(low="HF", olow="@fc"), F([0, 1], "HF", "FCI", links=[(0, 2, 6, "H")], olow="@fc", ohigh="@fc")]),
+        ]
     if not chk.quick:
         runs += [
             dict(name="BeH2 link, FCI(frozen core) : FCI", geometry=BEH2, options=True, expect="none",
@@ -443,46 +463,89 @@ def reference_energy(name, geom, charge, spin, opts=None):
     return _REF_CACHE[key]
 
 
+def written_opts(run, o):
+    """The options the caller WROTE for a level: a dict, None, or "@name" = the shared dict object run["shared"][name]."""
+    if isinstance(o, str) and o.startswith("@"):
+        return run["shared"][o[1:]]
+    return o
+
+
 def oniom_run(run):
-    """Execute one real ONIOM run -> trace record for C15Trace."""
+    """Execute one real ONIOM run -> (trace records for C15Trace, total).  Option dictionaries: every level gets the dict
+    object the run describes - "@name" levels all receive ONE shared object (as callers do with `options_both`); with
+    run["successive"] a second ONIOMProblemDecomposition is built afterwards from fresh Fragments and the SAME dict objects
+    (second record).  Tokens and references always use the options as written by the caller."""
     from tangelo.problem_decomposition.oniom.oniom_problem_decomposition import ONIOMProblemDecomposition
     from tangelo.problem_decomposition.oniom._helpers.helper_classes import Fragment, Link
     geometry = [(a[0], tuple(a[1])) for a in run["geometry"]]
-    frs = []
-    for f in run["frags"]:
-        links = [Link(s, l, f8 / 8.0, sp) for s, l, f8, sp in f["links"]] or None
-        frs.append(Fragment(solver_low=f["low"], solver_high=f["high"], selected_atoms=copy.deepcopy(f["sel"]),
-                            options_low=copy.deepcopy(f.get("olow")), options_high=copy.deepcopy(f.get("ohigh")),
-                            charge=f["charge"], spin=f["spin"], broken_links=links))
-    geo_arg = "\n".join("%s %r %r %r" % (a[0], a[1][0], a[1][1], a[1][2]) for a in geometry) if run.get("as_string") else list(geometry)
-    on = ONIOMProblemDecomposition({"geometry": geo_arg, "fragments": frs})
-    total = on.simulate()
-    total2 = on.simulate()
-    rec = {"kind": "oniom", "geometry": geom_json(geometry), "frags": [], "refs": [], "total": limbs(total), "total2": limbs(total2),
-           "expect": run["expect"]}
-    for f, fr in zip(run["frags"], on.fragments):
-        sel = f["sel"]
-        selj = ({"kind": "none", "n": 0, "l": []} if sel is None else
-                {"kind": "count", "n": sel, "l": []} if isinstance(sel, int) else {"kind": "list", "n": 0, "l": list(sel)})
-        fgeom = [(a[0], tuple(a[1])) for a in fr.geometry]
-        rec["frags"].append({"sel": selj, "links": [{"s": s, "l": l, "f8": f8, "sp": sp, "gsize": 1} for s, l, f8, sp in f["links"]],
-                             "low": level_token(f["low"], f.get("olow"), f["charge"], f["spin"]),
-                             "high": level_token(f["high"], f.get("ohigh"), f["charge"], f["spin"]),
-                             "geom": geom_json(fgeom)})
-        for name, opts in ((f["low"], f.get("olow")), (f["high"], f.get("ohigh"))):
-            if name:
-                rec["refs"].append(dict(level_token(name, opts, f["charge"], f["spin"]), geom=geom_json(fgeom),
-                                        e=limbs(reference_energy(name, fgeom, f["charge"], f["spin"], opts))))
+    live = {k: copy.deepcopy(v) for k, v in run.get("shared", {}).items()}        # the caller's dict objects
+    passed = []                                                                  # (label, object handed over, contents as written)
+
+    def obj(o, label):
+        if o is None:
+            return None
+        if isinstance(o, str) and o.startswith("@"):
+            d = live[o[1:]]
+            if not any(p[1] is d for p in passed):
+                passed.append(("shared " + o[1:], d, copy.deepcopy(run["shared"][o[1:]])))
+            return d
+        d = copy.deepcopy(o)
+        passed.append((label, d, copy.deepcopy(o)))
+        return d
+
+    def frame():
+        return [json.dumps(d, sort_keys=True) for _, d, _ in passed]
+
+    recs, total, objs = [], None, {}
+    for rnd in range(2 if run.get("successive") else 1):
+        frs = []
+        for x, f in enumerate(run["frags"]):
+            links = [Link(s, l, f8 / 8.0, sp) for s, l, f8, sp in f["links"]] or None
+            if rnd == 0:
+                objs[x] = (obj(f.get("olow"), "fragment %d low" % x), obj(f.get("ohigh"), "fragment %d high" % x))
+            ol, oh = objs[x]
+            frs.append(Fragment(solver_low=f["low"], solver_high=f["high"], selected_atoms=copy.deepcopy(f["sel"]),
+                                options_low=ol, options_high=oh, charge=f["charge"], spin=f["spin"], broken_links=links))
+        geo_arg = "\n".join("%s %r %r %r" % (a[0], a[1][0], a[1][1], a[1][2]) for a in geometry) if run.get("as_string") else list(geometry)
+        on = ONIOMProblemDecomposition({"geometry": geo_arg, "fragments": frs})
+        after_build = frame()
+        total = on.simulate()
+        total2 = on.simulate()
+        after_sim = frame()
+        rec = {"kind": "oniom", "geometry": geom_json(geometry), "frags": [], "refs": [], "total": limbs(total), "total2": limbs(total2),
+               "expect": run["expect"], "round": rnd,
+               "optframe": [{"name": p[0], "written": json.dumps(p[2], sort_keys=True), "built": ab, "simulated": asim}
+                            for p, ab, asim in zip(passed, after_build, after_sim)]}
+        for f, fr in zip(run["frags"], on.fragments):
+            sel = f["sel"]
+            selj = ({"kind": "none", "n": 0, "l": []} if sel is None else
+                    {"kind": "count", "n": sel, "l": []} if isinstance(sel, int) else {"kind": "list", "n": 0, "l": list(sel)})
+            fgeom = [(a[0], tuple(a[1])) for a in fr.geometry]
+            wl, wh = written_opts(run, f.get("olow")), written_opts(run, f.get("ohigh"))
+            rec["frags"].append({"sel": selj, "links": [{"s": s, "l": l, "f8": f8, "sp": sp, "gsize": 1} for s, l, f8, sp in f["links"]],
+                                 "low": level_token(f["low"], wl, f["charge"], f["spin"]),
+                                 "high": level_token(f["high"], wh, f["charge"], f["spin"]),
+                                 "geom": geom_json(fgeom)})
+            for name, opts in ((f["low"], wl), (f["high"], wh)):
+                if name:
+                    rec["refs"].append(dict(level_token(name, opts, f["charge"], f["spin"]), geom=geom_json(fgeom),
+                                            e=limbs(reference_energy(name, fgeom, f["charge"], f["spin"], opts))))
+        whole_refs(run, rec, geometry)
+        recs.append(rec)
+    return recs, total
+
+
+def whole_refs(run, rec, geometry):
     # E(level, whole system in the input order) for every neutral singlet level that appears
     seen = set()
     for f in run["frags"]:
-        for name, opts in ((f["low"], f.get("olow")), (f["high"], f.get("ohigh"))):
+        for name, o in ((f["low"], f.get("olow")), (f["high"], f.get("ohigh"))):
+            opts = written_opts(run, o)
             if name and f["charge"] == 0 and f["spin"] == 0:
                 tok = level_token(name, opts, 0, 0)
                 if (name, tok["o"]) not in seen:
                     seen.add((name, tok["o"]))
                     rec["refs"].append(dict(tok, geom=geom_json(geometry), e=limbs(reference_energy(name, geometry, 0, 0, opts))))
-    return rec, total
 
 
 def oniom_negative_controls(jobs):
@@ -497,6 +560,8 @@ def oniom_negative_controls(jobs):
             c["ctl"] = "link-direction"; ctl.append(c)
         if j["expect"] == "low":
             c = copy.deepcopy(j); c["frags"][-1]["high"]["o"] += ";other"; c["ctl"] = "premise-broken"; ctl.append(c)
+    for j in [x for x in jobs if x["optframe"]][:2]:
+        c = copy.deepcopy(j); c["optframe"][0]["built"] = "{}"; c["ctl"] = "option-dict-consumed"; ctl.append(c)
     return ctl
 
 
@@ -553,14 +618,15 @@ def run_oniom(chk, rng):
     jobs = []
     for run in oniom_runs(chk):
         try:
-            rec, total = oniom_run(run)
+            recs, total = oniom_run(run)
         except Exception as e:
             chk.violation("oniom:simulate:exception:%s" % type(e).__name__, "%s: %s (%s)" % (type(e).__name__, e, run["name"]),
                           {"kind": "oniom", "run": run})
             continue
-        rec["id"] = len(jobs) + 1
-        rec["run"] = run
-        jobs.append(rec)
+        for rec in recs:
+            rec["id"] = len(jobs) + 1
+            rec["run"] = run
+            jobs.append(rec)
     ctl = oniom_negative_controls(jobs)
     for x, c in enumerate(ctl):
         c["base"], c["id"] = c["id"], 10 ** 6 + x
@@ -574,7 +640,8 @@ def run_oniom(chk, rng):
         if v.startswith("malformed"):
             raise tlc.TLCError("malformed ONIOM record (%s): %s" % (v, j["run"]["name"]))
         if v != "ok":
-            chk.violation("oniom:simulate:%s:%s" % (j["expect"], v), "%s: %s" % (j["run"]["name"], v), {"kind": "oniom", "run": j["run"]})
+            chk.violation("oniom:simulate:%s:%s" % (j["expect"], v), "%s%s: %s" % (j["run"]["name"], " (second ONIOM object on the same option dicts)" if j.get("round") else "", v),
+                          {"kind": "oniom", "run": j["run"]})
     control_outcome(chk, "negative_controls_oniom", ctl, lambda c: verdicts[c["base"]] == "ok", lambda c: verdicts[c["id"]] == "ok")
     if jobs:
         j = jobs[0]
@@ -589,14 +656,19 @@ def run_oniom(chk, rng):
 
 def replay_oniom(case):
     try:
-        rec, total = oniom_run(case["run"])
+        recs, total = oniom_run(case["run"])
     except Exception as e:
         print("ONIOM run raised %s: %s" % (type(e).__name__, e))
         return False
-    rec["id"] = 1
-    verdicts, _ = tlc.judge("C15Trace", [rec], "c15/replay", {})
-    print("%s: simulate() = %r ; TLC verdict: %s" % (case["run"]["name"], total, verdicts[1]))
-    return verdicts[1] == "ok"
+    for x, rec in enumerate(recs):
+        rec["id"] = x + 1
+    verdicts, _ = tlc.judge("C15Trace", recs, "c15/replay", {})
+    print("%s: simulate() = %r ; TLC verdicts: %s" % (case["run"]["name"], total, [verdicts[r["id"]] for r in recs]))
+    for r in recs:
+        for o in r["optframe"]:
+            if not (o["written"] == o["built"] == o["simulated"]):
+                print("  option dict '%s': written %s, after build %s, after simulate %s" % (o["name"], o["written"], o["built"], o["simulated"]))
+    return all(verdicts[r["id"]] == "ok" for r in recs)
 
 
 # =====================================================================================================
